@@ -6,7 +6,7 @@ import "context"
 
 func vc09broker(ctx context.Context, backend int, opts BrokerOptions) *Broker[vc05item] {
 	if backend == 3 {
-		return NewLIFOBroker[vc05item](ctx, opts, 2)
+		return NewLIFOBroker[vc05item](ctx, opts, vf.Range("lifo-capacity", 1, 2))
 	}
 	return vc08broker(ctx, backend, opts)
 }
